@@ -53,6 +53,8 @@ ARGSETS = [
     {'depth': None, 'max_seq_len': 1000, 'width': 79},
     {'sort_dict_keys': False, 'ribbon_width': 71},
     {'style': 'light', 'width': 40},
+    {'width': 60, 'ribbon_width': 100},          # a ribbon wider than the page is stored as given
+    {'width': 200, 'depth': 0, 'sort_dict_keys': False},
 ]
 
 VALUE_EXPRS = [
